@@ -62,6 +62,8 @@ def deref_all(t):
     while isinstance(t, tuple) and t:
         if t[0] in ('ref', 'deref'):
             t = t[1]
+        elif t[0] == 'loc' and len(t) > 2:
+            t = t[2]
         else:
             break
     return t
